@@ -61,9 +61,6 @@ def check_next(F, fn, bounded_types):
             continue
         if t.op == "agg" and t.args[3] == "Some":
             yields = True
-        elif t.op == "call" and t.args[0] == "result::Result::ok":
-            facts.add(("var", t.args[2][0], "Ok"))     # the item exists only when the parse succeeded
-            yields = True
         else:
             return False, "UNRECOGNISED return value %s" % pp(t)[:120]
         n_some += 1
